@@ -1327,6 +1327,10 @@ func TrickyShapes() []*Shape {
 		scope("Expr", obj("Expr", p("e", &Shape{Kind: KOneOfStr, Disc: "_type", Members: []*Member{{KeyS: "lit", T: ref("Lit")}, {KeyS: "neg", T: ref("Expr")}}})), obj("Lit", p("v", &Shape{Kind: KInt}))),
 		// ... and through a one-of with integer keys
 		scope("ExprI", obj("ExprI", p("e", &Shape{Kind: KOneOfInt, Disc: "kind", Members: []*Member{{KeyI: 1, T: ref("LitI")}, {KeyI: 2, T: ref("ExprI")}}})), obj("LitI", p("v", &Shape{Kind: KInt}))),
+		// cycle through an inline single-property object
+		scope("A", obj("A", p("b", ref("B"))), obj("B", p("c", obj("C", p("a", ref("A")))))),
+		// cycle through a nested scope
+		scope("A", obj("A", p("s", scope("I", obj("I", p("back", ref("I"))))))),
 		// self reference through the only property
 		scope("A", obj("A", p("a", ref("A")))),
 		// rho: Root -> Node -> Node -> ...
@@ -1335,10 +1339,6 @@ func TrickyShapes() []*Shape {
 		scope("R", obj("R", p("x", ref("S"))), obj("S", p("y", ref("T"))), obj("T", p("z", ref("S")))),
 		// mutual recursion
 		scope("A", obj("A", p("b", ref("B"))), obj("B", p("a", ref("A")))),
-		// cycle through an inline single-property object
-		scope("A", obj("A", p("b", ref("B"))), obj("B", p("c", obj("C", p("a", ref("A")))))),
-		// cycle through a nested scope
-		scope("A", obj("A", p("s", scope("I", obj("I", p("back", ref("I"))))))),
 		// recursion through a list and a map (finite inputs exist at every depth)
 		scope("Tree", obj("Tree", p("value", str()), p("children", &Shape{Kind: KList, Items: ref("Tree")}), p("index", &Shape{Kind: KMap, Keys: str(), Vals: ref("Tree")}))),
 		// an inner scope shadows an outer object ID
